@@ -428,6 +428,17 @@ class _Analyzer:
                 continue
             st = self.g.stmt[d]
             if isinstance(st, ast.Assign):
+                comp = None
+                for t in st.targets:
+                    if isinstance(t, (ast.Tuple, ast.List)) and nm in C.target_names(t):
+                        comp = self._paired_component(t, st.value, nm, d)
+                if comp is not None:
+                    # a, b = x, y  /  pair = (x, y); a, b = pair : the name gets ITS component only
+                    out |= self.val(comp[0], comp[1], s2)
+                    if self.cuts == cuts0:
+                        self.memo[dkey] = set(out)
+                    out = saved | out
+                    continue
                 v = self.val(st.value, d, s2)
                 for t in st.targets:
                     if nm in C.target_names(t):
@@ -457,6 +468,29 @@ class _Analyzer:
         if not seen:
             self.memo[key] = out
         return out
+
+    def _paired_component(self, target: ast.AST, value: ast.AST, nm: str, at: int, depth: int = 0):
+        """(expression, node) of the component of a tuple literal that `nm` receives in `target = value`"""
+        if depth > 3 or not isinstance(target, (ast.Tuple, ast.List)) or any(isinstance(e, ast.Starred) for e in target.elts):
+            return None
+        lit, lit_at = None, at
+        if isinstance(value, (ast.Tuple, ast.List)):
+            lit = value
+        elif isinstance(value, ast.Name):
+            defs = [x for x in self.rd.defs_reaching(at, value.id) if x != self.g.entry]
+            if len(defs) == 1:
+                st = self.g.stmt[defs[0]]
+                if isinstance(st, (ast.Assign, ast.AnnAssign)) and st.value is not None and isinstance(st.value, (ast.Tuple, ast.List)) and \
+                        (isinstance(st, ast.AnnAssign) or (len(st.targets) == 1 and isinstance(st.targets[0], ast.Name))):
+                    lit, lit_at = st.value, defs[0]
+        if lit is None or len(lit.elts) != len(target.elts) or any(isinstance(e, ast.Starred) for e in lit.elts):
+            return None
+        for te, ve in zip(target.elts, lit.elts):
+            if isinstance(te, ast.Name) and te.id == nm:
+                return ve, lit_at
+            if isinstance(te, (ast.Tuple, ast.List)) and nm in C.target_names(te):
+                return self._paired_component(te, ve, nm, lit_at, depth + 1)
+        return None
 
     # ------------------------------------------------------------------ calls
     def resolve(self, call: ast.Call, at: int):
